@@ -420,6 +420,20 @@ fn process(repo: &str, req: &Value, cache: &mut HashMap<String, syn::File>) -> V
         }
         FoundItem::Method(im, m) => {
             emit_fn(&mut out, req, &m.sig, &m.block, Some(impl_header(im)));
+            // the associated types of a trait impl belong to the method's context (`Self::Error` in a signature)
+            if im.trait_.is_some() {
+                let assoc: Vec<String> = im.items.iter().filter_map(|it| match it {
+                    syn::ImplItem::Type(t) => {
+                        let mut t2 = t.clone();
+                        t2.attrs.clear();
+                        Some(t2.to_token_stream().to_string())
+                    }
+                    _ => None,
+                }).collect();
+                if !assoc.is_empty() {
+                    out["impl_assoc"] = json!(assoc.join("\n"));
+                }
+            }
         }
         FoundItem::TraitMethod(t, m) => {
             let hdr = format!("trait {}", t.ident);
